@@ -218,6 +218,16 @@ class ExecutionContext:
                             localScope[ref] = [x / y for x, y in zip(op1, op2)]
                         case LinearIR.OpCode.VECTOR_MUL:
                             localScope[ref] = [x * y for x, y in zip(op1, op2)]
+                        case LinearIR.OpCode.VECTOR_MOD:
+                            localScope[ref] = [x % y for x, y in zip(op1, op2)]
+                        case LinearIR.OpCode.VECTOR_LG_AND:
+                            localScope[ref] = [
+                                1 if x and y else 0 for x, y in zip(op1, op2)
+                            ]
+                        case LinearIR.OpCode.VECTOR_LG_OR:
+                            localScope[ref] = [
+                                1 if x or y else 0 for x, y in zip(op1, op2)
+                            ]
                         case LinearIR.OpCode.VECTOR_CMP_GT:
                             localScope[ref] = [
                                 1 if x > y else 0 for x, y in zip(op1, op2)
